@@ -775,3 +775,50 @@ contract(Contract(
         ("        return self._tool_ignore_cache[resolved]", "        return self._tool_ignore_cache[start_dir]", None, ["post[cached_per_resolved", "noraise"]),
     ],
 ))
+
+
+# --------------------------------------------------------------------------- FileResolver.__init__
+def _init_setup(ex):
+    cfg = VObj("FileResolverConfig", {"effective_exclude": ex.mk("list[str]", "effective_exclude"),
+                                      "effective_include": ex.mk("list[str]", "effective_include")})
+    ex.envs[0]["config"] = cfg
+
+
+def _init_post(ex):
+    """the exclusion spec is compiled from config.effective_exclude, the inclusion spec from config.effective_include (both in
+    gitignore syntax, each list handed over whole), and both caches start empty"""
+    s = ex.envs[0]["self"].fields
+    cs = [e for e in ex.log if e[0] == "COMPILE"]
+    if len(cs) != 2:
+        return False
+    cfg = ex.old_envs[0]["config"].fields
+    by_result = {}
+    for e in cs:
+        by_result[str(ex.z(e[2]))] = e
+
+    def compiled_from(field, lst):
+        e = by_result.get(str(ex.z(s[field])))
+        if e is None:
+            return False
+        got = ex.as_vlist(e[1]["lines"], "str")
+        want = ex.as_vlist(lst, "str")
+        return (ex.eq(e[1]["style"], "gitignore") is True) and got.arr.eq(want.arr) and ex.z(got.length).eq(ex.z(want.length))
+    empty = all(isinstance(s.get(f), dict) and not s[f] for f in ("_tool_ignore_cache", "_gitignore_cache")) \
+        and s["_tool_ignore_cache"] is not s["_gitignore_cache"]          # two caches, not one dict under two names
+    return bool(compiled_from("_exclude_spec", cfg["effective_exclude"]) and compiled_from("_include_spec", cfg["effective_include"]) and empty
+                and s.get("_config") is ex.envs[0]["config"])
+
+
+contract(Contract(
+    target=M + ":FileResolver.__init__",
+    props=["C17", "C18"],
+    params={"config": "obj:FileResolverConfig"},
+    self_cls="FileResolver",
+    setup=_init_setup,
+    calls={"pathspec.PathSpec.from_lines": Callee("effect", ret="ref:PathSpec", effect="COMPILE", sig=["style", "lines"])},
+    ensures={"specs_from_effective_lists_caches_empty": Clause(_init_post)},
+    canaries=[
+        ('            "gitignore", config.effective_exclude\n', '            "gitignore", config.effective_include\n', None, ["post[specs_from"]),
+        ("        self._gitignore_cache: dict[Path, pathspec.PathSpec | None] = {}", "        self._gitignore_cache: dict[Path, pathspec.PathSpec | None] = self._tool_ignore_cache", None, ["post[specs_from"]),
+    ],
+))
